@@ -198,9 +198,10 @@ Proof.
   apply nc_bind; [apply IH|intros; exact I].
 Qed.
 
-Theorem compile_no_crash m pat ops addr : lookup_pat m opcode_table = Some pat -> nc (compile_insn m ops addr).
+Theorem compile_no_crash m ops addr : nc (compile_insn m ops addr).
 Proof.
-  intros L. destruct (entry_fact_of_lookup _ _ L) as [i [name [pre [post [ks F]]]]].
+  destruct (lookup_pat m opcode_table) as [pat|] eqn:L; [|unfold compile_insn; rewrite L; exact I].
+  destruct (entry_fact_of_lookup _ _ L) as [i [name [pre [post [ks F]]]]].
   unfold compile_insn. rewrite L, (ef_init _ _ _ _ _ _ _ F). cbn [bind]. unfold compile_with.
   destruct (Nat.eqb (List.length ops) (List.length (stubs i))) eqn:E; cbn [negb]; [|exact I].
   apply Nat.eqb_eq in E.
